@@ -20,13 +20,14 @@ import _wire
 
 def run(c):
     drv = c.build("wire")
-    _wire.mc(c, "WireAuth", "WireAuthMC.%s.cfg" % c.tier, timeout=3000)
-    r0 = c.tlc("WireAuth", "WireAuthMC.code.cfg", workers=2, timeout=600)
-    if "Exact" in r0.inv_violated and 'field |-> "tc"' in r0.out:
-        c.notes.append("model variant TcCode=TRUE (traffic class masked with 0x3f as in pkg/spao/mac.go): "
-                       "Exact violated on a traffic-class bit, as expected (DESIGN.md D6)")
-    else:
-        raise vlib.Infra("the code-shaped model variant did not produce the expected counterexample:\n" + r0.out[-2000:])
+    if not c.replay:
+        _wire.mc(c, "WireAuth", "WireAuthMC.%s.cfg" % c.tier, timeout=3000)
+        r0 = c.tlc("WireAuth", "WireAuthMC.code.cfg", workers=2, timeout=600)
+        if "Exact" in r0.inv_violated and 'field |-> "tc"' in r0.out:
+            c.notes.append("model variant TcCode=TRUE (traffic class masked with 0x3f as in pkg/spao/mac.go): "
+                           "Exact violated on a traffic-class bit, as expected (DESIGN.md D6)")
+        else:
+            raise vlib.Infra("the code-shaped model variant did not produce the expected counterexample:\n" + r0.out[-2000:])
     if c.replay:
         trace = c.replay
     else:
